@@ -75,6 +75,7 @@ def check_repair(ctx, runs=None, arb=None):
     if cases is None:
         return None
     died = [c for c in cases if c["kind"] in ("child-died", "run-hang", "probe-error")]
+    all_cases = cases
     cases = [c for c in cases if c.get("coq")]
     terms = [c["coq"] for c in cases]
     results, infos = fw.eval_cases(os.path.join(ctx.work, "repair"), "recover", HEADER, "case", "check_case", "case_ok", terms)
@@ -134,7 +135,10 @@ def check_repair(ctx, runs=None, arb=None):
         ctx.oblige("witness %s replayed on the implementation" % fid, True)
         if present:
             status = ctx.finding_status(fid) if ctx.pid == "C10" else next((f.get("status") for f in fw.load_findings() if f.get("id") == fid), None)
-            what = {"R2": "interrupted check-group run is not repaired by recovery", "R3": "fixBlock early return leaves an in-flight sequence Running"}[fid]
+            what = {"R2": "interrupted check-group run is not repaired by recovery",
+                    "R3": "fixBlock early return leaves an in-flight sequence Running",
+                    "R5": "sequence repaired only in memory stays Running after a second crash",
+                    "R6": "plan continuous-check failure abandons the running block at recovery"}[fid]
             if status == "known":
                 pid, ctx.pid = ctx.pid, "C10"
                 ctx.known(fid, what + " [witness replayed through the hooks: %s]" % o.get("what"))
@@ -143,6 +147,11 @@ def check_repair(ctx, runs=None, arb=None):
                 ctx.violation(dict(kind="finding-not-listed-as-known", finding=fid, why=what, observed=o, input=c["input"]))
         else:
             ctx.notes.append("witness %s: the implementation no longer shows the finding (%s)" % (fid, o.get("what")))
+
+    for c in all_cases:
+        if c["kind"] == "witness-absent":
+            o = c.get("observed") or {}
+            ctx.notes.append("witness %s could not be produced on this tree: %s" % (o.get("witness"), o.get("what")))
 
     missing = {k: [b for b in REQUIRED[k] if b not in cover[k]] for k in REQUIRED}
     missing = {k: v for k, v in missing.items() if v}
